@@ -38,6 +38,12 @@ struct V<'a> {
     states: &'a mut Vec<StateRow>,
 }
 
+/// std-prelude names that allocate: macros (`vec!`, `format!`), owning types and the slice / str methods that build them.
+/// They are not rooted at `std::` or `alloc::` textually, so they get their own row kind (`prelude-alloc`).
+const PRELUDE_ALLOC_MACROS: [&str; 2] = ["vec", "format"];
+const PRELUDE_ALLOC_TYPES: [&str; 5] = ["Vec", "Box", "String", "Rc", "Arc"];
+const PRELUDE_ALLOC_METHODS: [&str; 6] = ["to_vec", "to_owned", "to_string", "into_boxed_slice", "into_vec", "repeat"];
+
 const STATE_WORDS: [&str; 12] = [
     "AtomicU8", "AtomicUsize", "AtomicBool", "AtomicU32", "AtomicU64", "Cell", "RefCell", "UnsafeCell", "Mutex", "RwLock", "OnceLock", "OnceCell",
 ];
@@ -54,8 +60,22 @@ impl<'a> V<'a> {
         }
     }
 
+    fn record_prelude(&mut self, name: &str, line: usize) {
+        self.refs.push(RefRow {
+            file: self.file.clone(),
+            line,
+            path: format!("prelude::{name}"),
+            cfg: self.stack.clone(),
+            kind: "prelude-alloc",
+        });
+    }
+
     fn record_path(&mut self, p: &str, line: usize, kind: &'static str) {
         let root = p.split("::").next().unwrap_or("").trim();
+        let first = root.split('<').next().unwrap_or("").trim();
+        if (kind == "macro" && PRELUDE_ALLOC_MACROS.contains(&first)) || (kind != "macro" && PRELUDE_ALLOC_TYPES.contains(&first)) {
+            self.record_prelude(first, line);
+        }
         if root == "std" || root == "alloc" {
             self.refs.push(RefRow { file: self.file.clone(), line, path: p.replace(' ', ""), cfg: self.stack.clone(), kind });
         }
@@ -92,6 +112,16 @@ impl<'a> V<'a> {
                         }
                         let l = id.span().start().line;
                         self.record_path(&p, if l > 0 { l } else { line }, "macro-body");
+                    }
+                    let bang = matches!(tts.get(i + 1), Some(TokenTree::Punct(p)) if p.as_char() == '!');
+                    let after_colons = matches!(i.checked_sub(1).and_then(|j| tts.get(j)), Some(TokenTree::Punct(p)) if p.as_char() == ':');
+                    let after_dot = matches!(i.checked_sub(1).and_then(|j| tts.get(j)), Some(TokenTree::Punct(p)) if p.as_char() == '.');
+                    if (bang && PRELUDE_ALLOC_MACROS.contains(&s.as_str()))
+                        || (!after_colons && !after_dot && PRELUDE_ALLOC_TYPES.contains(&s.as_str()))
+                        || (after_dot && PRELUDE_ALLOC_METHODS.contains(&s.as_str()))
+                    {
+                        let l = id.span().start().line;
+                        self.record_prelude(&s, if l > 0 { l } else { line });
                     }
                     if s == "static" || s == "thread_local" {
                         self.states.push(StateRow { file: self.file.clone(), line: id.span().start().line, what: format!("{s} (in macro tokens)"), cfg: self.stack.clone() });
@@ -192,6 +222,13 @@ impl<'a, 'ast> Visit<'ast> for V<'a> {
         let p = m.mac.path.to_token_stream().to_string();
         self.record_path(&p, m.span().start().line, "macro");
         self.scan_tokens(m.mac.tokens.clone(), m.span().start().line);
+    }
+    fn visit_expr_method_call(&mut self, m: &'ast syn::ExprMethodCall) {
+        let n = m.method.to_string();
+        if PRELUDE_ALLOC_METHODS.contains(&n.as_str()) {
+            self.record_prelude(&n, m.span().start().line);
+        }
+        syn::visit::visit_expr_method_call(self, m);
     }
     fn visit_path(&mut self, p: &'ast syn::Path) {
         let s = p.to_token_stream().to_string();
